@@ -206,6 +206,49 @@ theorem timeout_fires_fixed_partial (q : Quirks) (hq : Repaired q) (evs : List E
     ((step q (run q evs) (.timeouts now)).conns c).blocked = none :=
   (InvB_run q hq evs h).timeout_fires now c b d hb hd hle
 
+/-! ### What `AllowedFixed` still excludes does break the tree as it is (five repairs on, nothing else) -/
+
+/-- The switches of the tree at the time of writing: the five repairs, none of the four proposed since. -/
+def repaired5 : Quirks :=
+  { Quirks.fixed with drainAll := false, noticeBlockedHangup := false, deferBatchWhenBlocked := false, execAtomic := false }
+
+example : Repaired repaired5 := by decide
+
+/-- hang-up while blocked: unnoticed, the next element goes into the dead socket -/
+theorem fixed_exclusion_needed_hangup_blocked :
+    (run repaired5 [.conn 3 0 [.bpop .left [ka] 0], .hangup 3, .reap 3, .conn 2 0 [.push .right ka [[1]]], .wakeups]).lost
+      = [(ka, [1])] := by decide
+
+/-- a blocking pop pipelined behind one that blocked: registered on `a` without being blocked on `a` -/
+theorem fixed_exclusion_needed_second_bpop :
+    (run repaired5 [.conn 3 0 [.bpop .left [ka] 0, .bpop .left [kb] 0]]).wakeQ = [] ∧
+    inRegistry (run repaired5 [.conn 3 0 [.bpop .left [ka] 0, .bpop .left [kb] 0]]) ka 3 ∧
+    ¬ blockedOn (run repaired5 [.conn 3 0 [.bpop .left [ka] 0, .bpop .left [kb] 0]]) 3 ka := by
+  refine ⟨by decide, ⟨⟨3, none, .left⟩, by decide, rfl⟩, ?_⟩
+  rintro ⟨b, hb, hk⟩
+  have h : ((run repaired5 [.conn 3 0 [.bpop .left [ka] 0, .bpop .left [kb] 0]]).conns 3).blocked = some ⟨[kb], none, .left⟩ := by decide
+  rw [h] at hb
+  obtain rfl := Option.some.inj hb
+  revert hk
+  decide
+
+/-- a push that wakes more than 32 clients, with a pop pipelined behind it: 34 waiters, `RPUSH a v0..v33; LPOP a` in one
+    write — the 34th waiter ends blocked, in no queue, with an empty wake queue (replayed on the server by the
+    probe `wake-batch-overflow` of lib/c13.py) -/
+def wBatchOverflow : List Event :=
+  ((List.range 34).map fun i => Event.conn (i + 1) 0 [.bpop .left [ka] 0]) ++
+  [ .conn 100 0 [.push .right ka ((List.range 34).map fun i => [i]), .pop .left ka], .wakeups ]
+
+set_option maxRecDepth 100000 in
+theorem fixed_exclusion_needed_big_push :
+    (run repaired5 wBatchOverflow).registry = [] ∧ (run repaired5 wBatchOverflow).wakeQ = [] ∧
+    ((run repaired5 wBatchOverflow).conns 34).blocked = some ⟨[ka], none, .left⟩ := by decide
+
+set_option maxRecDepth 100000 in
+/-- with `drainAll` all 34 are served before the LPOP runs (it answers nil) -/
+example : ((run { repaired5 with drainAll := true } wBatchOverflow).conns 34).blocked = none ∧
+    outOf (run { repaired5 with drainAll := true } wBatchOverflow) 100 = [.int 34, .nil] := by decide
+
 /-! ### A transaction is one indivisible step -/
 
 /-- What the commands queued in a transaction see and answer depends on the lists alone — not on who is blocked:
